@@ -192,6 +192,12 @@ func runC17(x *Exec) {
 			group int // handles related by Clone since their last Open share a group (and, inside mast, tree nodes)
 		}
 		groups := 0
+		type groupWrite struct {
+			h   *handle
+			key string
+			e   kvEntry
+		}
+		written := map[int][]groupWrite{} // by group: every entry a member wrote while it belonged to the group
 		versions := map[string]kvState{}              // committed version name -> state
 		committedVals := map[string]map[string]bool{} // key -> set of "time|value" that were the entry of some committed version
 		tombTimes := map[string]map[int64]bool{}
@@ -279,11 +285,9 @@ func runC17(x *Exec) {
 						continue
 					}
 					fromRelative := false
-					for _, o := range hs {
-						if o != nil && o != h && o.group == h.group {
-							if e, ok := o.state[k]; ok && e == got[k] {
-								fromRelative = true
-							}
+					for _, wr := range written[h.group] {
+						if wr.h != h && wr.key == k && wr.e == got[k] {
+							fromRelative = true // (the relative may have re-opened since)
 						}
 					}
 					if _, mine := h.state[k]; mine || !fromRelative {
@@ -387,6 +391,7 @@ func runC17(x *Exec) {
 					}
 					h.state[ks] = ne
 					h.dirty = true
+					written[h.group] = append(written[h.group], groupWrite{h, ks, ne})
 				case "tomb":
 					if err := h.db.Tombstone(ctx, when, key(op.Key)); err != nil {
 						x.Fail("C17-op-failed", "%s: %v", desc, err)
@@ -402,6 +407,7 @@ func runC17(x *Exec) {
 					}
 					h.state[ks] = ne
 					h.dirty = true
+					written[h.group] = append(written[h.group], groupWrite{h, ks, ne})
 				case "rmtomb":
 					if err := h.db.RemoveTombstones(ctx, when); err != nil {
 						x.Fail("C17-op-failed", "%s: %v", desc, err)
